@@ -15,6 +15,7 @@ import (
 	"strings"
 	"sync"
 	"testing"
+	"time"
 
 	abci "github.com/cometbft/cometbft/abci/types"
 	tmproto "github.com/cometbft/cometbft/proto/tendermint/types"
@@ -41,6 +42,12 @@ func runFed(h History, blocks []BlockFeed, perturb bool, concurrent bool) []Bloc
 		}
 	}
 	o := hOpts(h)
+	if perturb {
+		// the host's time zone is far from replica A's (UTC): the calendar date of a block differs between the two
+		prev := time.Local
+		time.Local = time.FixedZone("east", 14*3600)
+		defer func() { time.Local = prev }()
+	}
 	if perturb {
 		// node-local configuration differs from replica A's defaults
 		o.LocalConfig = map[string]interface{}{"evm.max-tx-gas-wanted": uint64(100000), "minimum-gas-prices": "5aISLM", "evm.tracer": "", "json-rpc.gas-cap": uint64(1000)}
@@ -216,6 +223,7 @@ func TestC01Child(t *testing.T) {
 	must(err)
 	var feed c01Feed
 	must(json.Unmarshal(bz, &feed))
+	time.Local = time.FixedZone("west", -11*3600) // this process lives in another time zone
 	tr := runFed(feed.History, feed.Blocks, false, false)
 	out, _ := json.Marshal(tr)
 	fmt.Printf("C01TRACES:%s\n", out)
